@@ -1218,9 +1218,22 @@ type usegWorld struct {
 	nInit  int
 	// strict: also evaluate the iteration-protocol invariants against the input itself
 	strict bool
+	kept   [][]rune // segment slices returned since the last Init
 }
 
 func (u *usegWorld) init() {}
+
+// keep retains the slices the iterators hand out (the last few): a caller may well pass one of
+// them to the next Init, whatever storage it is a window of.
+func (u *usegWorld) keep(t []rune) {
+	if len(t) == 0 {
+		return
+	}
+	if len(u.kept) >= 8 {
+		u.kept = u.kept[1:]
+	}
+	u.kept = append(u.kept, t)
+}
 
 // texts whose end leaves the segmentation rules' look-behind state non-neutral
 var usegDecoys = []string{"", "\U0001F1EB", "12", "a ", "x\u200d", "(", "a\u0301", "\U0001F469\u200d", "\U0001F1EB\U0001F1F7\U0001F1EB", "1,", "a'", "\u05d0\""}
@@ -1257,8 +1270,19 @@ func (u *usegWorld) exec(op *ReuseOp, out *kernel.Outcome, trace *uint64) *kerne
 	switch op.K {
 	case "uinit":
 		text := []rune(op.Text)
+		switch {
+		case op.E == 2 && len(u.kept) > 0:
+			// the caller segments one of the segments it was given: the very slice, not a copy
+			text = copyRunes(u.kept[op.Iter%len(u.kept)])
+		case op.E == 3 && len(u.text) > 0 && len(u.text) < 200:
+			// typing: the previous paragraph plus a few runes
+			text = append(copyRunes(u.text), text...)
+		}
 		u.text = text
-		if op.E == 1 && cap(u.passed) >= len(text) && len(text) > 0 {
+		if op.E == 2 && len(u.kept) > 0 {
+			u.passed = u.kept[op.Iter%len(u.kept)]
+			out.Count("probe.useg_returned_segment_fed_back", 1)
+		} else if op.E == 1 && cap(u.passed) >= len(text) && len(text) > 0 {
 			// the caller refills the buffer it used for the previous paragraph (same backing
 			// array, often the same length) instead of allocating a new slice
 			u.passed = u.passed[:len(text)]
@@ -1268,6 +1292,7 @@ func (u *usegWorld) exec(op *ReuseOp, out *kernel.Outcome, trace *uint64) *kerne
 			u.passed = copyRunes(text)
 		}
 		u.iters = nil
+		u.kept = nil
 		// Another user of the package right before (a decoy text chosen to leave the rules'
 		// look-behind state non-neutral), and a neutral text before the reference model is
 		// computed: a state leak through package-level variables then shows as a difference.
@@ -1287,13 +1312,17 @@ func (u *usegWorld) exec(op *ReuseOp, out *kernel.Outcome, trace *uint64) *kerne
 			out.Count("probe.useg_reused", 1)
 			out.Nontrivial = true
 		}
-		if op.N == 1 { // the caller reuses its slice after Init
+		if op.E == 2 {
+			// a slice handed out by the library is not the caller's to write into later on
+			u.passed = nil
+		}
+		if op.N == 1 && op.E != 2 { // the caller reuses its slice after Init
 			for i := range u.passed {
 				u.passed[i] = 'X'
 			}
 			out.Count("probe.useg_input_scribbled", 1)
 		}
-		logf("uinit " + op.Text)
+		logf("uinit " + string(text))
 	case "uiter":
 		if !u.inited || len(u.iters) >= 4 {
 			return nil
@@ -1341,16 +1370,19 @@ func (u *usegWorld) step(it *usegIter, out *kernel.Outcome) *kernel.Violation {
 			if has = it.li.Next(); has {
 				l := it.li.Line()
 				got = usegSeg{l.Offset, string(l.Text), l.IsMandatoryBreak}
+				u.keep(l.Text)
 			}
 		case 1:
 			if has = it.gi.Next(); has {
 				g := it.gi.Grapheme()
 				got = usegSeg{g.Offset, string(g.Text), false}
+				u.keep(g.Text)
 			}
 		default:
 			if has = it.wi.Next(); has {
 				g := it.wi.Word()
 				got = usegSeg{g.Offset, string(g.Text), false}
+				u.keep(g.Text)
 			}
 		}
 	})
